@@ -1,3 +1,3 @@
 import pdo_check
 def run(ctx):
-    pdo_check.run(ctx, ["C12", "C12V"])
+    pdo_check.run(ctx, ["C12", "C12V", "C12R"])
